@@ -4,6 +4,7 @@ package main
 
 import (
 	"fmt"
+	"math/rand"
 	"sort"
 	"strings"
 
@@ -57,6 +58,12 @@ func cmdReplayHosts(args []string) error {
 		return err
 	}
 	defer out.close()
+	// two of the four names are hostnames with the same 32-bit djb2 hash: a line that lists one must not answer for the other
+	if dc := findCollisions("", ".example.org", 6, "abcdefghijklmnopqrstuvwxyz0123456789", 1, rand.New(rand.NewSource(seed()))); len(dc) == 1 {
+		hostNames["n1"], hostNames["n2"] = dc[0][0], dc[0][1]
+	} else {
+		return fmt.Errorf("no colliding hostnames found")
+	}
 	evals, mism, lines := 0, 0, 0
 	var samples []string
 	bad := func(c hostCase, line, entry, why string, exp, got any) {
@@ -150,7 +157,16 @@ func cmdReplayHosts(args []string) error {
 								bad(c, line, "DNSEngine.Match", "panic "+pv, nil, nil)
 								continue
 							}
-							n4, n6 := len(res.HostRulesV4), len(res.HostRulesV6)
+							// the groups are compared as sets of rules: a line whose names share a hash bucket is
+							// reported once per name by the engine, and the property does not fix the multiplicity
+							distinct := func(hs []*rules.HostRule) int {
+								seen := map[*rules.HostRule]bool{}
+								for _, h := range hs {
+									seen[h] = true
+								}
+								return len(seen)
+							}
+							n4, n6 := distinct(res.HostRulesV4), distinct(res.HostRulesV6)
 							got := "none"
 							switch {
 							case n4 == 1 && n6 == 0:
